@@ -36,6 +36,7 @@ def shards(tier):
             step = 4
         for g0 in range(0, ng, step):
             out.append((k, g0, min(g0 + step, ng)))
+    out.append(("scale", 0, 0))
     return out
 
 
@@ -56,7 +57,39 @@ def closure(k, edges, stored):
     return l1, l2
 
 
+def body_scale(ch, ctx):
+    """600 genes x 2 mRNAs x 5 exons, lines shuffled deterministically: 6000 second-level relations."""
+    order = ch.choose("line_order", ("top-down", "bottom-up", "shuffled"))
+    lines = []
+    for g in range(600):
+        lines.append("c1\ts\tgene\t%d\t%d\t.\t+\t.\tID=g%d" % (1 + 100 * g, 90 + 100 * g, g))
+        for m in range(2):
+            lines.append("c1\ts\tmRNA\t%d\t%d\t.\t+\t.\tID=g%dm%d;Parent=g%d" % (1 + 100 * g, 90 + 100 * g, g, m, g))
+            for e in range(5):
+                lines.append("c1\ts\texon\t%d\t%d\t.\t+\t.\tID=g%dm%de%d;Parent=g%dm%d" % (1 + 100 * g + 10 * e, 5 + 100 * g + 10 * e, g, m, e, g, m))
+    if order == "bottom-up":
+        lines.reverse()
+    elif order == "shuffled":
+        lines = [lines[(i * 7919) % len(lines)] for i in range(len(lines))]
+    db = gffutils.create_db(dbutil.write_text(ctx.fresh_dir(), "big.gff", "\n".join(lines) + "\n"), ":memory:", verbose=False)
+    ctx.sample(lambda: dict(scale="600 genes x 2 mRNA x 5 exons", order=order))
+    ctx.nontrivial()
+    ctx.outcome(("scale", order))
+    c = db.conn.execute("SELECT level, count(*) FROM relations GROUP BY level").fetchall()
+    counts = {r[0]: r[1] for r in c}
+    ctx.check(counts == {1: 1200 + 6000, 2: 6000}, "relation-counts-differ-at-scale", dict(order=order), got=counts,
+              expected={1: 7200, 2: 6000})
+    for g in (0, 299, 599):
+        kids2 = sorted(f.id for f in db.children("g%d" % g, level=2))
+        ctx.check(kids2 == sorted("g%dm%de%d" % (g, m, e) for m in range(2) for e in range(5)), "children-differ",
+                  dict(order=order, scale=True), gene=g, got=kids2[:4])
+        ps = sorted(f.id for f in db.parents("g%dm1e4" % g))
+        ctx.check(ps == ["g%d" % g, "g%dm1" % g], "parents-differ", dict(order=order, scale=True), got=ps)
+
+
 def body(ch, ctx):
+    if ctx.shard[0] == "scale":
+        return body_scale(ch, ctx)
     k, g0, g1 = ctx.shard
     mask = ch.choose("graph", range(g0, g1))
     dangling = ch.choose("dangling", [None] + list(range(k)))
@@ -65,15 +98,16 @@ def body(ch, ctx):
         perms = ctx.memo.setdefault(("perms", k), list(itertools.permutations(range(k))))
     perm = ch.choose("permutation", perms)
     edges = edges_of(k, mask)
-    names = ["n%d" % i for i in range(k)]
+    names = ["n,0" if i == 0 else "n%d" % i for i in range(k)]        # one id contains a comma (written %2C in the file)
     parents_of = {j: [names[i] for i, jj in edges if jj == j] for j in range(k)}
     if dangling is not None:
         parents_of[dangling] = parents_of[dangling] + ["ghost"]
     lines = {}
+    enc = lambda x: x.replace(",", "%2C")
     for i in range(k):
-        attrs = "ID=%s" % names[i]
+        attrs = "ID=%s" % enc(names[i])
         if parents_of[i]:
-            attrs += ";Parent=" + ",".join(parents_of[i])
+            attrs += ";Parent=" + ",".join(enc(p) for p in parents_of[i])
         lines[i] = "c1\ts\t%s\t%d\t%d\t.\t+\t.\t%s" % (TYPES[i], 100 - 10 * i, 200 - 10 * i, attrs)
     text = "\n".join(lines[i] for i in perm) + "\n"
     l1, l2 = closure(k, edges, range(k))
